@@ -813,28 +813,6 @@ module Z =
   let of_N = function
   | N0 -> Z0
   | Npos p0 -> Zpos p0
-
-  (** val odd : z -> bool **)
-
-  let odd = function
-  | Z0 -> false
-  | Zpos p0 -> (match p0 with
-                | XO _ -> false
-                | _ -> true)
-  | Zneg p0 -> (match p0 with
-                | XO _ -> false
-                | _ -> true)
-
-  (** val testbit : z -> z -> bool **)
-
-  let testbit a = function
-  | Z0 -> odd a
-  | Zpos p0 ->
-    (match a with
-     | Z0 -> false
-     | Zpos a0 -> Coq_Pos.testbit a0 (Npos p0)
-     | Zneg a0 -> negb (N.testbit (Coq_Pos.pred_N a0) (Npos p0)))
-  | Zneg _ -> false
  end
 
 (** val upd : nat -> 'a1 -> 'a1 list -> 'a1 list **)
@@ -4889,21 +4867,36 @@ let query_close qi =
                    q_tab = x.q_tab; q_index = x.q_index; q_max = x.q_max;
                    q_tables = (l x); q_table = x.q_table; q_rare = x.q_rare }))
                    (fun _ -> [])
-                   (set (fun q1 -> q1.q_tab) (fun f ->
-                     let n0 = fun r -> f r.q_tab in
+                   (set (fun q1 -> q1.q_max) (fun f ->
+                     let o = fun r -> f r.q_max in
                      (fun x -> { q_filter = x.q_filter; q_rels = x.q_rels;
                      q_cache = x.q_cache; q_lock = x.q_lock; q_arch =
-                     x.q_arch; q_tab = (n0 x); q_index = x.q_index; q_max =
-                     x.q_max; q_tables = x.q_tables; q_table = x.q_table;
-                     q_rare = x.q_rare })) (fun _ -> O)
-                     (set (fun q1 -> q1.q_arch) (fun f ->
-                       let n0 = fun r -> f r.q_arch in
+                     x.q_arch; q_tab = x.q_tab; q_index = x.q_index; q_max =
+                     (o x); q_tables = x.q_tables; q_table = x.q_table;
+                     q_rare = x.q_rare })) (fun _ -> None)
+                     (set (fun q1 -> q1.q_index) (fun f ->
+                       let n0 = fun r -> f r.q_index in
                        (fun x -> { q_filter = x.q_filter; q_rels = x.q_rels;
                        q_cache = x.q_cache; q_lock = x.q_lock; q_arch =
-                       (n0 x); q_tab = x.q_tab; q_index = x.q_index; q_max =
+                       x.q_arch; q_tab = x.q_tab; q_index = (n0 x); q_max =
                        x.q_max; q_tables = x.q_tables; q_table = x.q_table;
-                       q_rare = x.q_rare })) (fun _ -> O) q0)))))) (fun _ ->
-           unlockM q.q_lock))
+                       q_rare = x.q_rare })) (fun _ -> O)
+                       (set (fun q1 -> q1.q_tab) (fun f ->
+                         let n0 = fun r -> f r.q_tab in
+                         (fun x -> { q_filter = x.q_filter; q_rels =
+                         x.q_rels; q_cache = x.q_cache; q_lock = x.q_lock;
+                         q_arch = x.q_arch; q_tab = (n0 x); q_index =
+                         x.q_index; q_max = x.q_max; q_tables = x.q_tables;
+                         q_table = x.q_table; q_rare = x.q_rare })) (fun _ ->
+                         O)
+                         (set (fun q1 -> q1.q_arch) (fun f ->
+                           let n0 = fun r -> f r.q_arch in
+                           (fun x -> { q_filter = x.q_filter; q_rels =
+                           x.q_rels; q_cache = x.q_cache; q_lock = x.q_lock;
+                           q_arch = (n0 x); q_tab = x.q_tab; q_index =
+                           x.q_index; q_max = x.q_max; q_tables = x.q_tables;
+                           q_table = x.q_table; q_rare = x.q_rare }))
+                           (fun _ -> O) q0)))))))) (fun _ -> unlockM q.q_lock))
 
 (** val query_set_table : nat -> nat -> nat -> unit mW **)
 
@@ -5073,16 +5066,17 @@ let query_next_archetype qi =
 
 let query_next_table_or_archetype qi =
   bind (getQ qi) (fun q ->
-    match q.q_cache with
-    | Some addr ->
-      bind get (fun s ->
-        bind (of_opt (nth_error s.w_cheap addr) EIndex) (fun e ->
-          query_next_table qi e.ce_tables true))
-    | None ->
-      if Nat.leb (S (S O)) q.q_arch
-      then bind (query_next_table qi q.q_tables false) (fun found ->
-             if found then ret true else query_next_archetype qi)
-      else query_next_archetype qi)
+    bind (guard (Nat.leb (S O) q.q_tab) EMisuse) (fun _ ->
+      match q.q_cache with
+      | Some addr ->
+        bind get (fun s ->
+          bind (of_opt (nth_error s.w_cheap addr) EIndex) (fun e ->
+            query_next_table qi e.ce_tables true))
+      | None ->
+        if Nat.leb (S (S O)) q.q_arch
+        then bind (query_next_table qi q.q_tables false) (fun found ->
+               if found then ret true else query_next_archetype qi)
+        else query_next_archetype qi))
 
 (** val query_next : bool -> nat -> bool mW **)
 
@@ -5214,7 +5208,7 @@ type op =
 | ONewBatch of nat * nat list * hrel list * (nat * z) list
 | OExchangeBatch of nat * hrel list * nat list * nat list * hrel list
    * (nat * z) list
-| OSetRelBatch of nat * hrel list * hrel list
+| OSetRelBatch of nat * hrel list * nat list * hrel list
 | OAlive of z
 | OHas of z * nat
 | OGetRel of z * nat
@@ -5492,8 +5486,10 @@ let decode_op = function
                       | XH ->
                         pbind pnat (fun f ->
                           pbind prels (fun br ->
-                            pbind prels (fun rels ->
-                              pret (OSetRelBatch (f, br, rels))))) args
+                            pbind pnats (fun mids ->
+                              pbind prels (fun rels ->
+                                pret (OSetRelBatch (f, br, mids, rels))))))
+                          args
                       | _ -> None)
                    | XH -> pbind pnat (fun f -> pret (OFilterRegister f)) args)
                 | XH ->
@@ -5522,8 +5518,16 @@ type script_cfg = { sc_cap : nat; sc_caprel : nat; sc_bits : nat;
 (** val kind_of_code : z -> ckind **)
 
 let kind_of_code z0 =
-  { ck_rel = (Z.testbit z0 Z0); ck_zs = (Z.testbit z0 (Zpos XH)); ck_triv =
-    (Z.testbit z0 (Zpos (XO XH))) }
+  if (||) (Z.eqb z0 (Zpos (XO (XO XH)))) (Z.eqb z0 (Zpos (XI (XO XH))))
+  then { ck_rel = false; ck_zs = false; ck_triv = false }
+  else if Z.eqb z0 (Zpos (XO (XI XH)))
+       then { ck_rel = false; ck_zs = true; ck_triv = true }
+       else if (||) (Z.eqb z0 (Zpos (XI (XI XH))))
+                 (Z.eqb z0 (Zpos (XO (XO (XO XH)))))
+            then { ck_rel = true; ck_zs = false; ck_triv = true }
+            else if Z.eqb z0 (Zpos (XI (XO (XO XH))))
+                 then { ck_rel = true; ck_zs = true; ck_triv = true }
+                 else { ck_rel = false; ck_zs = false; ck_triv = true }
 
 (** val decode_cfg : z list -> script_cfg option **)
 
@@ -5894,13 +5898,12 @@ let step_op debug = function
       bind (batch_rels f brels) (fun br ->
         bind (to_relations (mk_of_list add0) rels) (fun _ ->
           bind (w_exchange_batch f br add0 rem rels vals) (fun _ -> ret [])))))
-| OSetRelBatch (f, hbrels, hrels) ->
+| OSetRelBatch (f, hbrels, mids, hrels) ->
   bind (resolveR hbrels) (fun brels ->
     bind (resolveR hrels) (fun rels ->
       bind (batch_rels f brels) (fun br ->
-        bind (getF f) (fun ff ->
-          bind (to_relations ff.f_mask rels) (fun _ ->
-            bind (w_set_relations_batch f br rels) (fun _ -> ret []))))))
+        bind (to_relations (mk_of_list mids) rels) (fun _ ->
+          bind (w_set_relations_batch f br rels) (fun _ -> ret [])))))
 | OAlive h ->
   bind (resolveH h) (fun e ->
     bind get (fun s -> ret ((zb (alive s e)) :: [])))
